@@ -310,6 +310,31 @@ def run(E: Engine, rep: Report, tier: str) -> dict:
             rep.check(exact, "TABLE", "AbstractReprEncoder.default|complex-written-as-real-only-when-imag-is-exactly-0", "`o.imag == 0`", f"a complex value is written as its real part under `{_show_(x)[:100]}`: a tolerance drops imaginary parts that are small but not zero (4e-9j in an effective noise operator or a state amplitude), so the decoded object is not equal to the original", E.where(enc, l.node))
     if n_re == 0:
         rep.excepted("TABLE", "AbstractReprEncoder.default|complex-written-as-real-only-when-imag-is-exactly-0", "no `return o.real` under a test of the imaginary part recognised: not decided", E.where(enc))
+    # every channel / DMM is written under the ID it is registered with in THIS device (the key of self.channels /
+    # self.dmm_channels, i.e. channel_ids), not under an ID recomputed from the channel (default_id()): a device built
+    # with custom channel_ids otherwise decodes to the default IDs
+    n_ids = 0
+    for l in _S(E, bta, inline=False).calls("_to_abstract_repr"):
+        if not l.value[2] or not l.loops:
+            continue
+        n_ids += 1
+        id_ = l.value[2][0]
+        txt_ = _show_(id_)[:300]
+        rep.check(("channels" in txt_ or "channel_ids" in txt_) and "default_id" not in txt_, "TABLE", "BaseDevice._to_abstract_repr|channel-written-under-its-registered-id", "id = key of self.channels / self.dmm_channels",
+                  f"BaseDevice._to_abstract_repr writes a channel under the id `{txt_[:80]}`: the id a channel has in a device is the one it is registered with (channel_ids), which need not be its default_id() -- a device with custom channel ids decodes to ('rydberg_global', ...) instead of ('ryd_glob', ...)", E.where(bta, l.node))
+    if n_ids == 0:
+        rep.excepted("TABLE", "BaseDevice._to_abstract_repr|channel-written-under-its-registered-id", "no per-channel _to_abstract_repr(<id>) call recognised: not decided", E.where(bta))
+    # the decoder passes a JSON value to the constructor of the class it BUILDS: whether a field is a constructor
+    # argument (`init`) is read from that class's own fields (VirtualDevice re-declares reusable_channels as an init
+    # field; BaseDevice has it init=False)
+    ddo = E.fn("pulser.json.abstract_repr.deserializer._deserialize_device_object")
+    sts = [l for l in _S(E, ddo, inline=False).logged("store") if l.loops and "fields(" in _show_(l.loops[-1])[:200]]
+    if not sts:
+        raise AnalysisError("anchor: _deserialize_device_object no longer fills the parameters in a loop over the dataclass fields")
+    for l in sts[-1:]:
+        own_init = any(x[0] == "attr" and x[2] == "init" and x[1][0] == "elem" and x[1][1] == l.loops[-1] for x in _sym17.conj_of(l.cond))
+        cls_ok = not any(t == ("name", "BaseDevice") for t in _subterms_(l.loops[-1]))
+        rep.check(own_init and cls_ok, "TABLE", "_deserialize_device_object|init-flag-of-the-built-class", "`param.init` of dataclasses.fields(<the class that is built>)", f"the decoder decides which JSON keys are constructor arguments under `{_show_(l.cond)[:140]}` (fields iterated: `{_show_(l.loops[-1])[:80]}`), not by the `init` flag of the built class's own fields: VirtualDevice.reusable_channels is an init field although BaseDevice declares it init=False, so VirtualDevice(reusable_channels=False) decodes with the default True", E.where(ddo, l.node))
     # a register is written with the coordinates it holds (`_coords` / `_coords_arr`), as BaseRegister._to_dict and
     # __eq__ read them -- not with the rounded / sorted copies kept for hashing (a 6-decimal rounding moves an atom and
     # can make the decoded register unequal to the original)
